@@ -30,8 +30,8 @@ let () =
         Printf.printf "ranked %s %s\n" (b2s (respects_rank lock_table)) (b2s (respects_rank lock_table_palette))
     | ["cycles"; n] ->
         let k = nat_of_int (int_of_string n) in
-        let s = th_run false (th_cycles k) and f = th_run true (th_cycles k) in
-        Printf.printf "cycles %s zombies=%d live=%d zombies_with_fix6=%d\n" n (int_of_nat (th_zombie s)) (int_of_nat (th_live s)) (int_of_nat (th_zombie f))
+        let s = th_run true (th_cycles k) and o = th_run false (th_cycles k) in
+        Printf.printf "cycles %s zombies=%d live=%d zombies_before_600ddcc=%d\n" n (int_of_nat (th_zombie s)) (int_of_nat (th_live s)) (int_of_nat (th_zombie o))
     | ["witness"] ->
         let c = run (cur_step false) cur_witness cur_init in
         Printf.printf "witness cursor final=%s burned=%s\n" (b2s (cur_final c)) (b2s (cu_fb c));
@@ -52,16 +52,16 @@ let () =
         let f = run (sh_step true) (sh_selfail_witness @ sh_finishing) sh_init in
         Printf.printf "witness select_failure_head finishes=%s gone=%d\n" (b2s (sh_final f)) (int_of_nat (sh_gone f));
         let ls = run (ls_step false) ls_witness ls_init in
-        Printf.printf "witness shutdown_vs_listener join_of_unstarted_thread=%s thread_created_after_shutdown=%s\n" (b2s (ls_badjoin ls)) (b2s (ls_late ls));
+        Printf.printf "witness shutdown_vs_listener_before_633e5d0 join_of_unstarted_thread=%s thread_created_after_shutdown=%s\n" (b2s (ls_badjoin ls)) (b2s (ls_late ls));
         let hs = run (hs_step false) hs_witness hs_init in
         let hen = List.exists (fun t -> enabled (hs_step false) (nat_of_int t) hs) [0; 1] in
-        Printf.printf "witness close_in_handshake state=%d final=%s some_thread_enabled=%s\n" (int_of_nat (hs_state hs)) (b2s (hs_final hs)) (b2s hen);
+        Printf.printf "witness close_in_handshake_before_4891477 state=%d final=%s some_thread_enabled=%s\n" (int_of_nat (hs_state hs)) (b2s (hs_final hs)) (b2s hen);
         let hf = run (hs_step true) (hs_witness @ hs_finishing) hs_init in
-        Printf.printf "witness close_in_handshake_fix8 final=%s\n" (b2s (hs_final hf));
+        Printf.printf "witness close_in_handshake_head final=%s\n" (b2s (hs_final hf));
         let l = run (rc_step false false) rc_leak_witness rc_init in
-        Printf.printf "witness thread_reclaim_head final=%s reclaimed=%d\n" (b2s (rc_final l)) (int_of_nat (rc_reclaimed l));
+        Printf.printf "witness thread_reclaim_before_600ddcc final=%s reclaimed=%d\n" (b2s (rc_final l)) (int_of_nat (rc_reclaimed l));
         let l6 = run (rc_step true false) (rc_leak_witness @ rc_finishing) rc_init in
-        Printf.printf "witness thread_reclaim_fix6 final=%s reclaimed=%d joined=%d detached=%s bad=%s\n" (b2s (rc_final l6)) (int_of_nat (rc_reclaimed l6)) (int_of_nat (rc_joined l6)) (b2s (rc_detached l6)) (b2s (rc_bad l6));
+        Printf.printf "witness thread_reclaim_head final=%s reclaimed=%d joined=%d detached=%s bad=%s\n" (b2s (rc_final l6)) (int_of_nat (rc_reclaimed l6)) (int_of_nat (rc_joined l6)) (b2s (rc_detached l6)) (b2s (rc_bad l6));
         let n0 = run (nf_step false (nat_of_int 0)) nf_gone_witness (nf_init (nat_of_int 0)) in
         Printf.printf "witness newfb_disconnect returned=%s sendmutex_owner=%d client_thread_pc=%d ok=%s\n"
           (b2s (int_of_nat (nf_pcA n0) = 8)) (int_of_nat (nf_send n0)) (int_of_nat (nf_pcB n0)) (b2s (nf_ok n0));
